@@ -243,7 +243,7 @@ def _reg(i):
 
 
 QUICK = [_reg(Present("present_q", 2, 2, 3, [0, 1, 2])).name, _reg(PanSN("pansn_q", 6)).name, _reg(FileNaming("naming_q", 5, [ord(c) for c in "a.f"])).name]
-THOROUGH = [_reg(Present("T_present", 2, 3, 5, [0, 1, 2, 3])).name, _reg(PanSN("T_pansn", 8)).name, _reg(FileNaming("T_naming", 7, [ord(c) for c in "a.fs2"])).name]
+THOROUGH = [_reg(Present("T_present", 2, 3, 5, [0, 1, 2, 3])).name, _reg(PanSN("T_pansn", 8)).name, _reg(FileNaming("T_naming", 6, [ord(c) for c in "a.fs"])).name]
 
 
 # archive level, through the real CLI create path (harness/cli_create.py)
